@@ -6,6 +6,7 @@ import PsVerif.Model.Version
 import PsVerif.Model.Upgrade
 import PsVerif.Model.Wire
 import PsVerif.Model.Admit
+import PsVerif.Model.Amounts
 /- line-protocol front end for the pure layer -/
 namespace PsVerif.Driver
 open PsVerif PsVerif.Model
@@ -132,6 +133,19 @@ def handlePure : List String → Option String
     match admission cfg req with
     | .agreement p => pure s!"agreement {p}"
     | .cancel reason => pure ("cancel " ++ (if reason == "suspicious" then "not-allowed" else reason))
+  | ["amt.out", amount, limitPpm, premium, feeSat, expectedFee, spendable] => do
+    let a ← nat? amount
+    let p ← int? premium
+    match feeDecision a p (premiumLimit a (← int? limitPpm)) ((← nat? feeSat) * 1000) (← nat? spendable) (← nat? expectedFee) with
+    | .pay => pure s!"pay claim={wrapU64 (claimAmountOut a p * 1000)}"
+    | .premiumTooHigh => pure "premiumTooHigh"
+    | .notEnoughSpendable => pure "notEnoughSpendable"
+    | .feeTooHigh => pure "feeTooHigh"
+  | ["amt.in", amount, limitPpm, premium] => do
+    let a ← nat? amount
+    match inDecision a (← int? premium) (premiumLimit a (← int? limitPpm)) with
+    | none => pure "premiumTooHigh"
+    | some (lock, ask) => pure s!"lock={lock} ask={ask}"
   | ["scid.cln", s] => do pure (hexStr (clnStyle (← unhexStr s)))
   | ["scid.lnd", s] => do pure (hexStr (lndStyle (← unhexStr s)))
   | ["premium.compute", amt, ppm] => do pure (toString (ppmCompute (← nat? amt) (← int? ppm)))
